@@ -20,6 +20,24 @@ pub trait TimeUntil {
     fn time_until(&self) -> Duration;
 }
 
+/// The largest time span a request deadline timer is armed for. Deadlines further in the future
+/// are enforced as if they were this far away. (`DelayQueue` cannot represent timeouts of more
+/// than roughly two years and panics when asked to.)
+pub(crate) const MAX_TIMEOUT: Duration = Duration::from_secs(60 * 60 * 24 * 365);
+
+/// Formats, for tracing spans, the wall-clock time at which a deadline `time_until` from `now`
+/// is reached. Never panics: times that cannot be represented as RFC 3339 timestamps are clamped
+/// to the largest one that can.
+pub(crate) fn format_deadline(now: std::time::SystemTime, time_until: Duration) -> String {
+    // 9999-12-31T23:59:59Z, the largest timestamp `humantime` can format.
+    let max = std::time::UNIX_EPOCH + Duration::from_secs(253_402_300_799);
+    let time = now
+        .checked_add(time_until)
+        .filter(|time| *time <= max)
+        .unwrap_or(max);
+    humantime::format_rfc3339(time).to_string()
+}
+
 impl TimeUntil for Instant {
     fn time_until(&self) -> Duration {
         self.duration_since(Instant::now())
